@@ -182,6 +182,7 @@ def main():
             elif verdict != 'KILLED':
                 bad += 1
             print('%-34s %-4s %-12s %s%s' % (m['id'], m['prop'], verdict, first, tag), flush=True)
+    shutil.rmtree('/root/.cache/go-build-verif-scratch', ignore_errors=True)
     print('%d mutants, %d unexpected outcomes' % (len(todo), bad))
     return 1 if bad else 0
 
